@@ -127,7 +127,8 @@ def evaluate(v):
             obj = ForceTorqueTrack("t", *arrs)
         else:
             k, n = q["v"]["k"], q["v"]["n"]
-            vals = {"list": [1.0] * n, "tuple": (1.0,) * n, "ndarray_f4": np.ones(n, "<f4"), "ndarray_f8": np.ones(n, "<f8"),
+            z = [1.0] + [0.0] * (n - 1) if n else []
+            vals = {"listz": list(z), "ndarray_f4z": np.array(z, "<f4"), "ndarray_i4z": np.array(z, "<i4"), "list": [1.0] * n, "tuple": (1.0,) * n, "ndarray_f4": np.ones(n, "<f4"), "ndarray_f8": np.ones(n, "<f8"),
                     "none": None, "int": 3, "float": 1.5, "ndarray0_f4": np.array(2.0, "<f4"), "ndarray0_f8": np.array(2.0),
                     "npscalar": np.float32(2.0)}[k]
             obj = Event("e", vals, EventsDataType.singleEvent if q["single"] else EventsDataType.eventSequence)
